@@ -34,26 +34,45 @@ def _model_dict(m, limit=400):
     return out
 
 
+PORTFOLIO = [({'smt.mbqi': False, 'smt.arith.nl': False}, 0.2),
+             ({'smt.mbqi': False}, 0.3),
+             ({}, 0.5)]
+
+
 def _check(args):
+    """Portfolio: an `unsat` of any configuration is a proof (each only removes inference power);
+    `sat` is accepted from any configuration (z3 reports sat only with a model of the whole input,
+    quantifiers included); otherwise unknown, keeping a candidate model for the replay harness."""
     name, smt, timeout_ms, expect_sat, want_model = args
     t0 = time.time()
+    cand = None
+    reason = ''
     try:
-        s = z3.Solver()
-        s.set('timeout', timeout_ms)
-        s.from_string(smt)
-        r = s.check()
-        dt = time.time() - t0
-        if r == z3.unsat:
-            return (name, REFUTED if expect_sat else PROVED, dt, None, 'z3')
-        if r == z3.sat:
-            md = None
-            if want_model and not expect_sat:
+        for opts, share in PORTFOLIO:
+            s = z3.Solver()
+            s.set('timeout', max(200, int(timeout_ms * share)))
+            for k, v in opts.items():
+                s.set(k, v)
+            s.from_string(smt)
+            r = s.check()
+            dt = time.time() - t0
+            if r == z3.unsat:
+                return (name, REFUTED if expect_sat else PROVED, dt, None, 'z3' + (':' + ','.join(opts) if opts else ''))
+            if r == z3.sat:
+                md = None
+                if want_model and not expect_sat:
+                    try:
+                        md = _model_dict(s.model())
+                    except Exception as e:
+                        md = {'_error': str(e)}
+                return (name, PROVED if expect_sat else REFUTED, dt, md, 'z3')
+            reason = s.reason_unknown()
+            if cand is None and want_model and 'incomplete' in reason:
                 try:
-                    md = _model_dict(s.model())
-                except Exception as e:
-                    md = {'_error': str(e)}
-            return (name, PROVED if expect_sat else REFUTED, dt, md, 'z3')
-        return (name, UNKNOWN, dt, {'reason': s.reason_unknown()}, 'z3')
+                    cand = _model_dict(s.model())
+                except Exception:
+                    cand = None
+        return (name, UNKNOWN, time.time() - t0, {'reason': reason, 'candidate_model': cand}, 'z3')
     except Exception as e:          # solver crash is never a verdict
         return (name, UNKNOWN, time.time() - t0, {'reason': 'z3 error: %r' % (e,)}, 'z3')
 
